@@ -107,7 +107,8 @@ Record hstep := {
   hs_env_before : alist;
   hs_kind : N;                        (* 1 = an exception propagated, 2 = returned (early at the gate, or at the end) *)
   hs_args : option (list str);        (* installer arguments, if the installer was called *)
-  hs_rec_after : alist;               (* CONF_INSTALLED_PACKAGES of the config entry after the run *)
+  hs_rec_after : alist;               (* CONF_INSTALLED_PACKAGES of the live config entry object after the run *)
+  hs_persisted : alist;               (* the record as last handed to async_update_entry (what survives a restart) *)
   hs_updated : bool;                  (* async_update_entry was called *)
   hs_env_after : alist
 }.
@@ -120,6 +121,7 @@ Definition step_matches (o : step_out) (h : hstep) : bool :=
   list_eqb row_eqb (table_rows (so_table o)) (hs_table h)
   && alist_eqb (so_env_before o) (hs_env_before h)
   && alist_eqb (so_rec o) (hs_rec_after h)
+  && alist_eqb (so_rec o) (hs_persisted h)
   && alist_eqb (so_env_after o) (hs_env_after h)
   && match so_out o with
      | OGated => N.eqb (hs_kind h) 2 && negb (hs_updated h) && match hs_args h with None => true | Some _ => false end
@@ -147,15 +149,18 @@ Definition hspec_on (rs : ranks) (l : list (list rfile * otable * run_obs)) : bo
     spec_table_ok (rk_valid rs) (rk_le rs) (spec_lines (fst (fst x))) (snd (fst x))
     && spec_run_ok (rk_valid rs) (rk_le rs) (snd x)) l.
 
-Fixpoint h_obs (rec : alist) (steps : list hstep) : list (list rfile * otable * run_obs) :=
+(* the record is judged twice per pass: as the live entry object shows it, and as it was persisted *)
+Fixpoint h_obs_with (get : hstep -> alist) (rec : alist) (steps : list hstep) : list (list rfile * otable * run_obs) :=
   match steps with
   | [] => []
   | h :: r =>
       (si_files (hs_in h), rows_otable (hs_table h),
        {| ro_allow := si_allow (hs_in h); ro_env_before := hs_env_before h; ro_rec_before := rec;
-          ro_done := N.eqb (hs_kind h) 2; ro_args := hs_args h; ro_rec_after := hs_rec_after h;
-          ro_env_after := hs_env_after h |}) :: h_obs (hs_rec_after h) r
+          ro_done := N.eqb (hs_kind h) 2; ro_args := hs_args h; ro_rec_after := get h;
+          ro_env_after := hs_env_after h |}) :: h_obs_with get (get h) r
   end.
+Definition h_obs (rec : alist) (steps : list hstep) : list (list rfile * otable * run_obs) :=
+  h_obs_with hs_rec_after rec steps ++ h_obs_with hs_persisted rec steps.
 Fixpoint m_obs (rec : alist) (ins : list step_in) (outs : list step_out) : list (list rfile * otable * run_obs) :=
   match ins, outs with
   | i :: ins', o :: outs' =>
